@@ -243,6 +243,8 @@ def _fold3(e: ast.AST, known: Dict[str, object]):
         return last
     if isinstance(e, ast.UnaryOp) and isinstance(e.op, ast.Not):
         return not _fold3(e.operand, known)
+    if isinstance(e, ast.NamedExpr):  # (name := value) has the value of `value`
+        return _fold3(e.value, known)
     if isinstance(e, (ast.Tuple, ast.List, ast.Set)):
         vals = []
         for x in e.elts:
@@ -267,6 +269,20 @@ def _fold3(e: ast.AST, known: Dict[str, object]):
         return q.fold(cmp, names)
     if isinstance(e, ast.IfExp):
         return _fold3(e.body, known) if _fold3(e.test, known) else _fold3(e.orelse, known)
+    if isinstance(e, ast.Call) and isinstance(e.func, ast.Name) and e.func.id == "next" and 1 <= len(e.args) <= 2 and not e.keywords:
+        seq = _fold3(e.args[0], known)
+        if not isinstance(seq, tuple):
+            raise q.NotFoldable("next() of a non-sequence")
+        if seq:
+            return seq[0]
+        if len(e.args) == 2:
+            return _fold3(e.args[1], known)
+        raise q.NotFoldable("next() of an empty sequence")
+    if isinstance(e, ast.Call) and isinstance(e.func, ast.Attribute) and e.func.attr in ("items", "keys", "values") and not e.args and not e.keywords:
+        recv = _fold3(e.func.value, known)
+        if recv == ():  # an empty mapping (e.g. **kwargs of a call without extra keywords)
+            return ()
+        raise q.NotFoldable("mapping view")
     if isinstance(e, ast.Call) and q.dotted(e.func) == "isinstance" and len(e.args) == 2 and not e.keywords:
         obj = _fold3(e.args[0], known)
         if not isinstance(obj, (str, bytes, int, float, bool, type(None), tuple)):
